@@ -78,6 +78,7 @@ Definition x_common_ft (o : popts) (s : st) : option str * st :=      (* -f (req
     end
   end.
 
+Fixpoint pair_up (l : list str) : list (str * str) := match l with a :: b :: r => (a, b) :: pair_up r | _ => [] end.
 Definition macro_x (s : st) : st :=
   if process s then s else
   match args s with
@@ -108,6 +109,37 @@ Definition macro_x (s : st) : st :=
         let '(pairs, s8) := opt_pairs o s7 in
         let '(m, s9) := xmtag c0 b e pairs s8 in
         s9 <| mtags ::= assoc_set tag m |>
+      end
+    else if str_eqb cmd (R "ftag") then
+      let '(o, s3) := parse_opts specOptXftag rest s2 in
+      let '(skip, s4) := match opt "f" o with
+                         | Some f => let '(fs, s') := formats_of f s3 in let s'' := check_formats fs s' in (not_export_format fs s'', s'')
+                         | None => (false, s3) end in
+      if skip then s4 else
+      match opt "t" o with
+      | None => err "-t option should be specified" s4
+      | Some t =>
+        let '(tag, s5) := inlines_text t s4 in
+        match tag with [] => err "tag option argument cannot be empty" s5 | _ =>
+        if flag "shell" o then
+          match po_args o with
+          | [] => err "missing arguments for shell command" s5
+          | a => let '(sargs, s6) := fold_left (fun '(acc, s) x => let '(t, s') := inlines_text x s in (acc ++ [t], s')) a ([], s5) in
+                 s6 <| filters ::= assoc_set tag (FShell sargs) |>
+          end
+        else match opt "gsub" o with
+        | Some g =>
+          let '(x, s6) := inlines_text g s5 in
+          match x with
+          | [] => err "invalid -gsub argument" s6
+          | c :: r => let l := split_on c r [] in
+                      if Nat.even (List.length l) then s6 <| filters ::= assoc_set tag (FGsub (pair_up l)) |>
+                      else err "invalid -gsub argument (non even number of strings)" s6
+          end
+        | None => match opt "regexp" o with
+                  | Some _ => err "regexp filters are not modelled" s5
+                  | None => err "one of -shell/-gsub/-regexp option should be provided" s5 end
+        end end
       end
     else if str_eqb cmd (R "set") then
       let '(o, s3) := parse_opts specOptXset rest s2 in
